@@ -8,6 +8,11 @@ func (g *gen) push()  { g.f.scopes = append(g.f.scopes, nil) }
 func (g *gen) pop()   { g.f.scopes = g.f.scopes[:len(g.f.scopes)-1] }
 func (g *gen) add(v *vinfo) *vinfo {
 	top := len(g.f.scopes) - 1
+	for _, o := range g.f.scopes[top] {
+		if o.name == v.name {
+			panic("c14 generator: redeclaration of " + v.name)
+		}
+	}
 	g.f.scopes[top] = append(g.f.scopes[top], v)
 	return v
 }
@@ -130,7 +135,13 @@ func (g *gen) inLoop() bool {
 	return false
 }
 
-func (g *gen) genStmt() (*Node, bool) {
+func (g *gen) genStmt() (n *Node, term bool) {
+	depth0, f0 := len(g.f.scopes), g.f
+	defer func() {
+		if g.f != f0 || len(g.f.scopes) != depth0 {
+			panic(fmt.Sprintf("c14 generator: scope stack unbalanced by %v", n))
+		}
+	}()
 	g.account(1)
 	g.stmts++
 	deep := g.f.depth >= 4 || !g.room(12) || g.stmts > 70
@@ -183,7 +194,11 @@ func (g *gen) genStmt() (*Node, bool) {
 	case 2:
 		return g.stIf()
 	case 3:
-		return g.stLoop(), false
+		// (stLoop works in a scope of its own: its fall-back must run after that scope is gone)
+		if n := g.stLoop(); n != nil {
+			return n, false
+		}
+		return g.stAssign(), false
 	case 4:
 		return g.stSwitch(), false
 	case 5:
@@ -609,7 +624,7 @@ func (g *gen) nest() {
 // stLoop generates one of the loop forms with a static bound on the number of iterations.
 func (g *gen) stLoop() *Node {
 	if !g.room(20) {
-		return g.stAssign()
+		return nil
 	}
 	g.push()
 	defer g.pop()
@@ -668,7 +683,7 @@ func (g *gen) stLoop() *Node {
 	case 1: // index loop over a container: for i := 0; i < len(s); i++
 		v := g.loopContainer()
 		if v == nil {
-			return g.stAssign()
+			return nil
 		}
 		N := g.lenBound(v)
 		name := g.newName(true)
@@ -721,7 +736,7 @@ func (g *gen) stLoop() *Node {
 	case 3: // range over a slice / string / []byte
 		v := g.loopContainer()
 		if v == nil {
-			return g.stAssign()
+			return nil
 		}
 		N := g.lenBound(v)
 		key, val := none(), none()
@@ -761,7 +776,9 @@ func (g *gen) stLoop() *Node {
 			pre = append(pre, &Node{K: "define", S: nm, A: []*Node{{K: "conv", T: "int", A: []*Node{vr(val.S)}}}})
 			g.add(&vinfo{name: nm, typ: "int", lo: 0, hi: 255})
 		}
-		body, _ := g.genBlock(4)
+		g.f.depth++
+		body, _ := g.genStmts(4)
+		g.f.depth--
 		g.pop()
 		n.B = append(pre, body...)
 		g.leaveLoop(n)
@@ -769,16 +786,17 @@ func (g *gen) stLoop() *Node {
 		g.mark("range-" + map[string]string{"[]int": "slice", "string": "string", "[]byte": "bytes"}[v.typ])
 	case 4: // range over an integer
 		N := g.rng(1, 5, "N")
-		nm := g.newName(true)
-		g.add(&vinfo{name: nm, typ: "int", ro: true, lo: 0, hi: float64(N)})
-		g.f.mult *= N
-		n = &Node{K: "range", T: ":=", A: []*Node{vr(nm), none(), ilit(int64(N))}}
+		bound := ilit(int64(N))
 		if g.chance(30) {
 			// bound from an expression with a known small range
 			e := g.genInt(1)
 			g.noteExpr(e)
-			n.A[2] = bin("&", e.n, ilit(int64(N)))
+			bound = bin("&", e.n, ilit(int64(N)))
 		}
+		nm := g.newName(true)
+		g.add(&vinfo{name: nm, typ: "int", ro: true, lo: 0, hi: float64(N)})
+		g.f.mult *= N
+		n = &Node{K: "range", T: ":=", A: []*Node{vr(nm), none(), bound}}
 		g.enterLoop("for")
 		g.nest()
 		n.B, _ = g.genBlock(4)
@@ -788,7 +806,7 @@ func (g *gen) stLoop() *Node {
 		mv := g.pickMap()
 		acc, ok := g.accTarget()
 		if mv == nil || !ok {
-			return g.stAssign()
+			return nil
 		}
 		g.noteWrite(acc)
 		g.useVar(mv)
@@ -1235,6 +1253,16 @@ func (g *gen) stDefer() *Node {
 			return g.stAssign()
 		}
 		g.mark("defer-in-loop")
+	}
+	if g.f.recovers && g.f.nDefers > 0 {
+		if !g.on(kMultiDefer) {
+			return g.stAssign()
+		}
+		g.mark("multi-defer-recover")
+	}
+	g.f.nDefers++
+	if g.f.nDefers > 1 {
+		g.mark("multi-defer")
 	}
 	g.mark("defer")
 	g.f.sig.pure = false
